@@ -507,16 +507,15 @@ class Interp(object):
         return out
 
     def _first_paths_atom(self, v):
-        found = []
+        """an unresolved callee-alternatives atom of v that is not nested inside another one (splitting an inner atom first
+        would change the outer atom, whose recorded conditions could then no longer be found): the largest one"""
+        found = {}
 
         def walk(x):
-            if found:
-                return
             if isinstance(x, Rat):
                 for a in x.atoms(True):
                     if isinstance(a, Fn) and a.name == "paths" and a.key() in self.paths_conds:
-                        found.append(a)
-                        return
+                        found[repr(a.key())] = a
             elif isinstance(x, (tuple, list)):
                 for y in x:
                     walk(y)
@@ -524,7 +523,10 @@ class Interp(object):
                 for y in x.values():
                     walk(y)
         walk(v)
-        return found[0] if found else None
+        if not found:
+            return None
+        k = max(found, key=lambda r: (len(r), r))
+        return found[k]
 
     def returns(self, finfo, args=None, kwargs=None, self_obj=None):
         """list of (conds, return value); falls-off-the-end paths give None."""
